@@ -15,6 +15,6 @@ Be careful and honest: if you are not sure a rewrite is behaviour-preserving in 
 DELIVERABLES in /tmp/wt-{pid}/_out/ :
   - b1.diff, b2.diff, b3.diff, b4.diff : `git diff -- src` of each refactoring (each applies with `git apply` to a clean checkout of the same commit)
   - meta.json : {{"area": "...", "items": [{{"file": "b1.diff", "summary": "<what was refactored and why it is behaviour-preserving>", "tests": "<what you ran and the result>"}}, ...]}}
-Finally restore the tree (`git checkout -- src`) and remove build output: `rm -rf /tmp/wt-{pid}/target`.
+NEVER use `git stash` (the stash is shared by every worktree of the repository and other agents work in parallel); use `git diff -- src > file` and `git checkout -- src` instead. Finally restore the tree (`git checkout -- src`) and remove build output: `rm -rf /tmp/wt-{pid}/target`.
 
 In your final answer, list the four refactorings briefly with the test results.""")
